@@ -131,7 +131,7 @@ class Run:
             raise CheckerError("zero obligations generated")
         backends.discharge(obls, self.budget)
         # escalate unknowns once with 4x budget
-        unk = [o for o in obls if o.status == "unknown"]
+        unk = [o for o in obls if o.status == "unknown" and o.kind not in ("cover", "canary")][:8]
         if unk:
             for o in unk:
                 o.status = None
@@ -167,6 +167,11 @@ class Run:
                 lines.append("NOTE: listed finding %s is reachable for the solver but did not replay on the real code" % key)
             else:
                 lines.append("NOTE: listed finding %s is no longer present (its witness obligations are unsatisfiable)" % key)
+        # vacuity guards (cover/canary) the solver cannot decide (quantified path conditions) are reported as
+        # inconclusive, not as failures; a refuted one (precondition contradictory / exit unreachable) is an error
+        self.inconclusive = [o for o in obls if o.kind in ("cover", "canary") and o.status == "unknown"]
+        if self.inconclusive:
+            self.sink.obls = obls = [o for o in obls if o not in self.inconclusive]
         bad = [o for o in obls if o.status != "discharged"]
         violations = []
         undecided = []
@@ -249,6 +254,7 @@ class Run:
                 "axioms": self.axioms, "assumed_contracts": self.assumed_contracts,
                 "abstracted_statements": self.abstracted, "bounded": self.bounded,
                 "not_decided": self.not_decided,
+                "vacuity_checks_inconclusive": [o.name for o in getattr(self, "inconclusive", [])],
                 "known_findings": [{"key": o.meta.get("finding"), "obligation": o.name} for o in known_hits],
                 "not_discharged": [{"obligation": o.name, "status": o.status, "detail": o.detail[:200]} for o in obls if o.status != "discharged"][:50],
                 "samples": samples,
